@@ -12,7 +12,7 @@ Extraction "model.ml"
   PlaSpec.band_lo PlaSpec.band_hi PlaSpec.line_ok_b PlaSpec.cert4_b PlaSpec.line_close_b PlaSpec.reported_line_close_b
   IndexModel.build IndexModel.search_tr IndexModel.search IndexModel.C01_pred_b IndexModel.C02_pred_b
   IndexModel.slope_to_floating IndexModel.segment_of_cseg
-  GenLeaf.par_threshold Base.kmin Base.kmax
+  GenLeaf.par_threshold GenLeaf.c_epsilon_recursive Base.kmin Base.kmax
   DynExec.idx_ops DynModel.dyn_ctor DynModel.dyn_bulk DynModel.insert_or_assign DynModel.erase DynModel.dfind DynModel.count
   DynModel.lower_bound DynModel.range DynModel.to_list_from DynModel.iter_of DynModel.dyn_begin DynModel.dyn_size DynModel.dyn_empty
   VariantsModel.bucketing_build VariantsModel.bucketing_search VariantsModel.pow_two VariantsModel.top_shift
